@@ -551,6 +551,7 @@ pub fn generate(stream: &str, tier: &str, seed: u64) -> Vec<String> {
         "l1.sched" => gen_sched(&mut rng, thorough, &mut out),
         "l1.sched.read" => gen_sched_read(&mut rng, thorough, &mut out),
         "l1.sched.poll" => gen_sched_poll(&mut rng, thorough, &mut out),
+        "l1.sched.hist" => gen_sched_hist(&mut rng, thorough, &mut out),
         "l1.sched.flush" => gen_sched_flush(&mut rng, thorough, &mut out),
         "l1.partial" => gen_partial(&mut rng, thorough, &mut out),
         "l1.dir.c01" => {
@@ -1103,6 +1104,38 @@ pub fn gen_sched_read(rng: &mut Rng, thorough: bool, out: &mut Vec<String>) {
     }
 }
 
+
+/// `l1.sched.hist` (C03): the history requests of `l1.sched.read` only — Complete and MostRecent(n) histories of a label
+/// while a publish gives that label its next version; what is returned must be the whole history as of the returned epoch.
+pub fn gen_sched_hist(rng: &mut Rng, thorough: bool, out: &mut Vec<String>) {
+    let rt = rt();
+    let bound = if thorough { 3 } else { 2 };
+    for (cfg, rcache) in [("wv1", "none"), ("exp", "default"), ("exp", "same:default"), ("wv1", "same:1ms")] {
+        out.push(format!("fx.reset {cfg} none off"));
+        out.push(format!("ck {}", key_hex(&rt)));
+        let pool = user_pool(rng, 3);
+        for u in &pool {
+            for v in 1..=6u64 {
+                for fresh in [true, false] {
+                    out.push(format!("vrf {} {} {} {}", hex_or_dash(u), if fresh { "F" } else { "S" }, v, show_label(&vrf_label(&rt, cfg, u, fresh, v))));
+                }
+            }
+        }
+        let pair = |rng: &mut Rng, i: usize| format!("{} {}", hex_or_dash(&pool[i]), hex_or_dash(&rng.bytes(3)));
+        out.push(format!("fx.publish {} {}", pair(rng, 0), pair(rng, 1)));
+        out.push(format!("fx.publish {} {}", pair(rng, 0), pair(rng, 1)));
+        out.push(format!("fx.publish {}", pair(rng, 0)));
+        let u0 = hex_or_dash(&pool[0]);
+        let u1 = hex_or_dash(&pool[1]);
+        let batch = format!("{} {}", pair(rng, 0), pair(rng, 2));
+        out.push(format!("sch.read {bound} {rcache} history {u0} complete || {batch}"));
+        out.push(format!("sch.read {bound} {rcache} history {u0} recent:1 || {batch}"));
+        out.push(format!("sch.read {} {rcache} history {u0} recent:2 | history {u1} complete || {batch}", bound.min(2)));
+        if !thorough && rcache == "default" {
+            break;
+        }
+    }
+}
 
 /// `l1.sched.poll` (C13, last clause): a writer instance publishes while requests are served by a second, read-only
 /// instance with its own cache, on which `poll_for_azks_changes` runs; every schedule up to the preemption bound.
